@@ -101,19 +101,21 @@ def run_writer(ctx, q, name, shape, formatter=None):
             raise AnchorError(f"{q}: formatter parameter")
         env[params[2]] = Opaque("name:" + formatter, ())
     eng = Engine(ctx, BULK, fn, cond=_field_cond, env=env, post=_text_post)
-    leaves = eng.run()
-    if len(leaves) != 1 or leaves[0].state.facts or leaves[0].kind not in ("fall", "return"):
-        raise Unsupported(f"{q}: {len(leaves)} paths for one card ({[lf.kind for lf in leaves][:4]}, "
-                          f"undecided: {[f[0] for lf in leaves for f in lf.state.facts][:3]})")
-    out = []
-    for nm, args, kw, node in leaves[0].state.effects:
-        if nm == params[0] + ".write" and args and len(args) == 1:
-            out.append(args[0])
-        elif nm == params[0] + ".writelines" and args and isinstance(args[0], Tup):
-            out.extend(args[0].items)
-    if any(not is_str(o) for o in out):
-        raise Unsupported(f"{q}: written text is not modelled ({[type(o).__name__ for o in out if not is_str(o)][:3]})")
-    return cat(*out)
+    leaves = [lf for lf in eng.run() if lf.kind in ("fall", "return")]      # paths that raise write no card
+    texts = []
+    for lf in leaves:
+        out = []
+        for nm, args, kw, node in lf.state.effects:
+            if nm == params[0] + ".write" and args and len(args) == 1:
+                out.append(args[0])
+            elif nm == params[0] + ".writelines" and args and isinstance(args[0], Tup):
+                out.extend(args[0].items)
+        if any(not is_str(o) for o in out):
+            raise Unsupported(f"{q}: written text is not modelled ({[type(o).__name__ for o in out if not is_str(o)][:3]})")
+        texts.append(cat(*out))
+    if not texts or any(t != texts[0] for t in texts):
+        raise Unsupported(f"{q}: {len(texts)} different texts for one card (undecided: {[f[0] for lf in leaves for f in lf.state.facts][:3]})")
+    return texts[0]
 
 
 def expected_slots(shape):
@@ -147,8 +149,6 @@ def check_grid(text, W, per, conchars, shape, closing):
         i = next((j for j, (a, b) in enumerate(zip(got + ["-"] * len(want), want + ["-"] * len(got))) if a != b), None)
         return f"field {i + 1 if i is not None else '?'} of {len(shape)} is not in line {1 + (i or 0) // per}, position {1 + (i or 0) % per} of the grid"
     nl = -(-max(len(shape), 1) // per)
-    if closing and (len(lines) % 2 != 0):
-        return f"{len(lines)} physical lines: large-field cards are written in pairs of lines"
     if len(lines) not in (nl, nl + 1):
         return f"{len(lines)} physical lines for {len(shape)} fields"
     return None
@@ -228,11 +228,15 @@ def run_reader(ctx, q, lines, n, conchar, fixed=True):
     eng = Engine(ctx, BULK, fn, cond=cond, call=call, env=env, post=post)
     leaves = eng.run()
     rets = [lf for lf in leaves if lf.kind == "return"]
-    if len(rets) != 1 or len(leaves) != 1 or rets[0].state.facts:
+    if not rets or any(lf.value != rets[0].value for lf in rets) or any(lf.kind == "fall" for lf in leaves):
         raise Unsupported(f"{q}: {len(leaves)} paths for one card (undecided: {[f[0] for lf in leaves for f in lf.state.facts][:3]})")
     v = rets[0].value
     if not isinstance(v, Tup):
         raise Unsupported(f"{q}: returns {type(v).__name__}")
+    for x in v.items:
+        wrong = any(isinstance(n, Opaque) and n.name == "misread" for n in walk_value(x))
+        if not wrong and not (is_field(x) or x == BLANK or isinstance(x, (Lit, Const)) or is_num(x)):
+            raise Unsupported(f"{q}: a value read is not determined ({type(x).__name__})")
     consumed = as_int(rets[0].state.env["<next>"]) - 1
     return list(v.items), consumed
 
@@ -371,6 +375,7 @@ def r3_card_grid(ctx):
                 continue
             rfn = ctx.src.func(BULK, "_rdfixed")
             lines = split_lines(text)
+            lines = lines[:1] + [cat(ln, Lit("\n")) for ln in lines[1:]]          # continuation lines arrive raw, the first one stripped
             want = trim([BLANK if s == "blank" else s for s in expected_slots(shape)], BLANK)
             try:
                 got, used = run_reader(ctx, "_rdfixed", lines, W, conch[W], True)
@@ -384,7 +389,7 @@ def r3_card_grid(ctx):
                 continue
             cfn = ctx.src.func(BULK, "_rdcomma")
             for lead in (",", "+,"):
-                cl = comma_lines(name.rstrip("*"), shape, lead)
+                cl = [cat(ln, Lit("\n")) for ln in comma_lines(name.rstrip("*"), shape, lead)]
                 try:
                     gotc, usedc = run_reader(ctx, "_rdcomma", cl, None, cch, False)
                 except Unsupported as e:
